@@ -193,7 +193,7 @@ def run(ctx) -> None:
         r2.ok(f"same multiset of {len(dt['hops'])} hops (amplitude, i, j, R)", dt["hops"][:3])
 
     # ---------------------------------------------------------------- R32.3
-    r3 = ctx.rule("R32.3", "Hermitian insertion of hoppings; R list closed under negation", min_instances=3)
+    r3 = ctx.rule("R32.3", "Hermitian insertion of hoppings; R list closed under negation", min_instances=2)
     g = idx.function(TP, "get_system_tb_py")
     cfg, du, pm = fctx(g)
     S3 = Sem(idx, g)
@@ -222,8 +222,22 @@ def run(ctx) -> None:
         grp = [x for x in body if x in augs]
         if grp not in groups:
             groups.append(grp)
-    if len(groups) < 3:
-        raise AnalysisError(f"get_system_tb_py: expected ≥3 hopping-insertion blocks, found {len(groups)}")
+    # hoppings are accumulated, never assigned: several hoppings may land on the same (R, i, j), and a source model may hold both R and −R
+    plain = [s for s in stmts(g.node) if isinstance(s, ast.Assign) and len(s.targets) == 1 and isinstance(s.targets[0], ast.Subscript)
+             and norm(s.targets[0].value) == "Ham_R" and enclosing(pm, s, ast.For) is not None and r_index(s.targets[0], s) not in R0_FORMS
+             and not any(isinstance(n_, ast.Attribute) and "site_energ" in n_.attr for n_ in ast.walk(s.value))]
+    for s in plain:
+        r3.instance(f"{g.short}: {norm1(s, 60)}")
+        r3.violation(g, s, f"`{norm1(s, 80)}` ASSIGNS a hopping block into Ham_R inside the loop over hoppings instead of accumulating it: an entry of the "
+                     f"source model at −R (or a second hopping between the same orbitals) overwrites what was stored before, so the imported H(k) differs "
+                     f"from the source model", stmt="hopping assigned, not accumulated")
+    branches = set()
+    for grp in groups:
+        for t_, p_, _n in S3.conditions(grp[0], resolve=False):
+            if p_ and "module" in t_:
+                branches.add(t_)
+    if not plain and (len(groups) < 2 or len(branches) < 2):
+        raise AnalysisError(f"get_system_tb_py: expected hopping-insertion blocks for both source packages, found {len(groups)} block(s) under {sorted(branches)}")
 
     def idx_parts(t: ast.Subscript) -> List[str]:
         sl = t.slice
@@ -304,11 +318,23 @@ def run(ctx) -> None:
         ra = S3.resolve(qa[0], cfg.node(a))
         rb = S3.resolve(qb[0], cfg.node(b))
         nd = neg_diff(ra, rb)
+        if nd is None and isinstance(ra, ast.Subscript) and isinstance(rb, ast.Subscript) and norm(ra.value) == norm(rb.value) and isinstance(ra.value, ast.Call) \
+                and isinstance(ra.slice, ast.Constant) and isinstance(rb.slice, ast.Constant) and isinstance(ra.value.func, ast.Name):
+            # (iR, inR) = _helper(...): compare the two elements of the tuple the helper returns
+            hf = g.module.functions.get(ra.value.func.id)
+            hrets = [x for x in ast.walk(hf.node) if isinstance(x, ast.Return) and isinstance(x.value, ast.Tuple)] if hf is not None else []
+            if len(hrets) == 1 and max(ra.slice.value, rb.slice.value) < len(hrets[0].value.elts):
+                nd = neg_diff(hrets[0].value.elts[ra.slice.value], hrets[0].value.elts[rb.slice.value])
         if nd is None and norm(ra) != norm(rb):
             raise AnalysisError(f"get_system_tb_py: cannot relate the R indices `{norm1(ra, 90)}` and `{norm1(rb, 90)}` of a hopping block")
         neg_ok = bool(nd)
         swap_ok = (pa[1:] == pb[1:][::-1]) if len(pa) == 3 else (len(pa) == 1 and len(pb) == 1)
-        needs_T = len(pa) == 1 or any(isinstance(x, ast.Slice) for x in qa[1:])
+        def is_slice(x_):
+            if isinstance(x_, ast.Slice):
+                return True
+            r_ = S3.resolve(x_, cfg.node(a)) if isinstance(x_, ast.Name) else x_
+            return isinstance(r_, ast.Call) and call_name(r_) == "slice"
+        needs_T = len(pa) == 1 or any(is_slice(x) for x in qa[1:])
         conj_ok = norm(core_a) == norm(core_b) and (cb - ca) % 2 == 1
         if needs_T:
             conj_ok = conj_ok and (tb_ - ta_) % 2 == 1
@@ -418,6 +444,8 @@ SELFTEST = [
       "        onsite = np.zeros((system.num_wann, system.num_wann))\n        for i in range(norb_loc):\n            if model._nspin == 1:\n                onsite[i, i] = model._site_energies[i]\n            elif model._nspin == 2:\n                onsite[2 * i:2 * i + 2, 2 * i:2 * i + 2] = model._site_energies[i]\n        Ham_R[index0] += onsite\n", "fire", "R32.3"),
     V("neutral: on-site energies collected in a complex buffer", TP, "        for i in range(norb_loc):\n            if model._nspin == 1:\n                Ham_R[index0, i, i] = model._site_energies[i]\n            elif model._nspin == 2:\n                Ham_R[index0, 2 * i:2 * i + 2, 2 * i:2 * i + 2] = model._site_energies[i]\n",
       "        onsite = np.zeros((system.num_wann, system.num_wann), dtype=complex)\n        for i in range(norb_loc):\n            if model._nspin == 1:\n                onsite[i, i] = model._site_energies[i]\n            elif model._nspin == 2:\n                onsite[2 * i:2 * i + 2, 2 * i:2 * i + 2] = model._site_energies[i]\n        Ham_R[index0] += onsite\n", "silent"),
+    V("tbmodels hoppings assigned instead of accumulated (seeded C32-m3)", TP, "            Ham_R[iR] += hops\n            Ham_R[inR] += np.conjugate(hops.T)\n",
+      "            Ham_R[iR] = hops\n            Ham_R[inR] = np.conjugate(hops.T)\n", "fire", "R32.3"),
     V("neutral: np.conj spelling", TP, "Ham_R[inR, j, i] += np.conjugate(amplitude)", "Ham_R[inR, j, i] += np.conj(amplitude)", "silent"),
     V("neutral: hop order permuted in the PythTB twin", MD,
       "    my_model.set_hop(t2, 0, 0, [1, 0])\n    my_model.set_hop(t2, 1, 1, [1, -1])\n", "    my_model.set_hop(t2, 1, 1, [1, -1])\n    my_model.set_hop(t2, 0, 0, [1, 0])\n",
